@@ -16,7 +16,7 @@ from __future__ import annotations
 
 from datetime import timedelta
 
-from mc import explore, vclock
+from mc import common, explore, vclock
 
 from checks import _guardloop as G
 
@@ -330,10 +330,22 @@ def run_real(model, name):
     return [], kinds, len(ops)
 
 
+def _selfcheck(ctx, model, depth):
+    n, pairs, mism = G.canon_selfcheck(model, depth)
+    ctx.coverage["canon_selfcheck"] = {"states": n, "merged_pairs_compared": pairs, "mismatches": len(mism)}
+    if mism and not ctx.violations:
+        raise common.HarnessError(f"canonical state merges behaviourally different states: {mism[:2]}")
+    if mism:
+        ctx.note(f"canonicalisation self-check: {len(mism)} merged pairs differ (tree already violates the property)")
+
+
 def run(ctx):
     model = Model(ctx.tier)
     depth = 40  # the search reaches its fixpoint at depth ~10: the result then holds for histories of any length
     res = explore.explore(model, ctx, depth)
+
+    if ctx.tier == "thorough":
+        _selfcheck(ctx, model, depth)
 
     real_steps = 0
     seen_kinds = set()
